@@ -1,6 +1,7 @@
 import Sop.Lemmas.Commit
 import Sop.Lemmas.CommitWitness
 import Sop.Lemmas.CommitPhase1
+import Sop.Lemmas.CommitSuccess
 /-!
 # C01 — a committed transaction's changes appear all-or-nothing across every store
 
@@ -12,6 +13,10 @@ What is proved here (all for arbitrary handles, write sets and batches):
   (`reserve_keeps_view`), staged blobs never hide anything (`stage_keeps_view`), and undoing a reservation deletes
   only staged data (`undo_keeps_view`);
 * the flip makes exactly the staged version visible (`flip_shows_staged`).
+* the SUCCESS half (`C01_ok_installs_every_update`, `C01_ok_every_updated_node_advances`): whenever `Commit`
+  returns ok — with or without a (tolerated) fault in lock release or cleanup — every node of the write set's
+  update list shows its staged blob at exactly version + 1, and every node the transaction neither updated nor
+  removed is as it was; proved through the whole of phase 1 (`Staged`), the flip and the cleanup (`Flipped`).
 What is refuted (the full statement `Statement_C01_err` is false for the code as it is): a store-count update that
 is applied but reported as failed is not undone (`C01_counterexample`).
 -/
@@ -102,8 +107,56 @@ theorem C01_failed_phase1_keeps_every_node (s0 : State) (w : WS) (fresh0 : List 
       (commit w n { s := s0, tid := tid, fault := fault, fresh := fresh0 }).2.s.view lid = s0.view lid :=
   commit_phase1_failure_keeps_views pre fault tid n r1 hf
 
+/-- **The success half of C01 at node level.** If `Commit` returns ok — under no fault or under any single fault it
+tolerates — then (1) the handles the transaction reserved are exactly the write set's updated nodes, at the versions
+read; (2) each of them now shows the staged blob at version + 1; (3) every node that was loadable at the start and is
+neither updated nor removed by this transaction is unchanged. `Pre2` states the write set is well formed (no node
+updated twice or both updated and removed) and that physical ids are not shared between handles. -/
+theorem C01_ok_installs_every_update (s0 : State) (w : WS) (fresh0 : List (UUID × UUID)) (pre : Pre s0 w fresh0)
+    (pre2 : Pre2 s0 w fresh0) (fault : Option Fault) (tid : Tid) (n : Nat) (r2 : Run)
+    (hok : commit w n { s := s0, tid := tid, fault := fault, fresh := fresh0 } = (.ok, r2)) :
+    ∃ r1, phase1 w n { s := s0, tid := tid, fault := fault, fresh := fresh0 } = .ok ((), r1) ∧
+      (w.hasTracked = true → r1.reserved.map (fun h => (h.lid, h.version)) = w.updated) ∧
+      (∀ h ∈ r1.reserved, h.inactive ≠ 0 → r2.s.view h.lid = some (h.inactive, h.version + 1)) ∧
+      (∀ lid, (s0.view lid).isSome → (∀ h ∈ r1.reserved, h.lid ≠ lid) → (∀ g ∈ r1.removedH, g.lid ≠ lid) →
+        r2.s.view lid = s0.view lid) :=
+  commit_ok_installs pre pre2 fault tid n r2 hok
+
+/-- the same, read per node of the write set: an updated node `(lid, v)` of a successful commit ends at version
+`v + 1` under a blob id the transaction staged (when the id generator did not hand out the nil id) -/
+theorem C01_ok_every_updated_node_advances (s0 : State) (w : WS) (fresh0 : List (UUID × UUID)) (pre : Pre s0 w fresh0)
+    (pre2 : Pre2 s0 w fresh0) (fault : Option Fault) (tid : Tid) (n : Nat) (r2 : Run) (hT : w.hasTracked = true)
+    (hok : commit w n { s := s0, tid := tid, fault := fault, fresh := fresh0 } = (.ok, r2))
+    (x : UUID × Int) (hx : x ∈ w.updated) :
+    ∃ newId, newId = 0 ∨ r2.s.view x.1 = some (newId, x.2 + 1) := by
+  obtain ⟨r1, _, hcov, hnew, _⟩ := commit_ok_installs pre pre2 fault tid n r2 hok
+  rw [← hcov hT] at hx
+  obtain ⟨h, hm, rfl⟩ := List.mem_map.mp hx
+  refine ⟨h.inactive, ?_⟩
+  by_cases hz : h.inactive = 0
+  · exact .inl hz
+  · exact .inr (hnew h hm hz)
+
 /-- the premises are satisfiable by a non-trivial state (node updated + node added + staged id) -/
 theorem C01_premises_satisfiable : Pre Witness.s0 Witness.wSplit [(1, 9)] := Witness.pre_wSplit
+
+/-- `Pre2` holds of the split witness, and its commit does return ok with node 1 at (staged id 9, version 2) -/
+theorem C01_success_premises_satisfiable : Pre2 Witness.s0 Witness.wSplit [(1, 9)] := by
+  have hreg : ∀ i h, Witness.s0.reg i = some h → i = 1 := by
+    intro i h e
+    simp only [Witness.s0, State.setReg, State.setBlob] at e
+    split at e
+    · rename_i hi; exact hi
+    · cases e
+  refine ⟨by decide, ?_, by decide, ?_, ?_, ?_, ?_⟩
+  · intro i _ hm; simp [WS.removed, Witness.wSplit] at hm
+  · intro i hm; simp [WS.removed, Witness.wSplit] at hm
+  · intro i j h h' e e' hne; exact absurd ((hreg i h e).trans (hreg j h' e').symm) hne
+  · intro i h _ hm; simp [WS.obsoleteValues, Witness.wSplit] at hm
+  · intro p _ hm; simp [WS.obsoleteValues, Witness.wSplit] at hm
+
+example : (commit Witness.wSplit 30 { s := Witness.s0, tid := 1, fault := none, fresh := [(1, 9)] }).1 = .ok := by
+  decide +kernel
 
 /-- non-vacuity of `reserve_keeps_view`'s hypotheses: the witness state reserves node 1 -/
 example : (reserveAll Witness.s0.now Witness.s0.hour [(1, 9)] [({ lid := 1, idA := 1, version := 1 }, 1)]).isSome = true := by
